@@ -213,10 +213,12 @@ class TreeStorage(BaseStorage):
         root_node = self._storage_x[feature_name]._root
         data_reservoir = self.data_reservoirs[feature_name]
         leaf_id = self.get_path_through_tree(root_node, x_i)
+        # the adaptive tree may have replaced or pruned a branch while learning this point, also when the point
+        # itself ends up in an already known leaf: drop reservoirs of vanished leaves on every update
+        self._delete_outdated_reservoirs(feature_name, root_node)
         if leaf_id not in data_reservoir:
             data_reservoir[leaf_id] = GeometricReservoirStorage(
                 size=self._leaf_reservoir_length, store_targets=False, constant_probability=1.0)
-            self._delete_outdated_reservoirs(feature_name, root_node)
         data_reservoir[leaf_id].update(x)
 
     def __call__(self, feature_name: Any) -> Tuple[Union[HoeffdingTreeRegressor, HoeffdingTreeClassifier], str]:
